@@ -168,3 +168,17 @@ Proof.
   - injection H as <-. destruct i; reflexivity.
   - destruct (all_some l) eqn:E; [|discriminate]. injection H as <-. destruct i; cbn; [reflexivity|]. apply IH. reflexivity.
 Qed.
+
+(* ---------- projections through record-update setters ----------
+   `p (s <| fld := v |>)` is `p s` (other field) or `g (p s)` (same field); both by conversion.
+   Never use `cbn`/`simpl` on goals mentioning `htr` (it unfolds the merkleisation). *)
+Ltac simpl_set :=
+  repeat match goal with
+  | |- context [?p (set ?fld ?g ?s)] =>
+      first [ change (p (set fld g s)) with (p s) | change (p (set fld g s)) with (g (p s)) ]
+  end; cbv beta.
+Ltac simpl_set_in H :=
+  repeat match type of H with
+  | context [?p (set ?fld ?g ?s)] =>
+      first [ change (p (set fld g s)) with (p s) in H | change (p (set fld g s)) with (g (p s)) in H ]
+  end; cbv beta in H.
